@@ -119,6 +119,23 @@ func (h *counterHistory) findCounterFor(ourKeyID, theirKeyID uint32) *keyPairCou
 	return c
 }
 
+// forgetRetired drops the counters of key pairs that can no longer be used:
+// only the current and the previous key of either side are ever accepted
+func (h *counterHistory) forgetRetired(ourKeyID, theirKeyID uint32) {
+	kept := h.counters[:0]
+	for _, c := range h.counters {
+		if c.ourKeyID+1 >= ourKeyID && c.theirKeyID+1 >= theirKeyID {
+			kept = append(kept, c)
+		} else {
+			c.wipe()
+		}
+	}
+	for i := len(kept); i < len(h.counters); i++ {
+		h.counters[i] = nil
+	}
+	h.counters = kept
+}
+
 type keyManagementContext struct {
 	ourKeyID, theirKeyID                        uint32
 	ourCurrentDHKeys, ourPreviousDHKeys         dhKeyPair
@@ -185,6 +202,8 @@ func (c *Conversation) rotateKeys(dataMessage dataMsg) error {
 		return err
 	}
 	c.keys.rotateTheirKey(dataMessage.senderKeyID, dataMessage.y)
+
+	c.keys.counterHistory.forgetRetired(c.keys.ourKeyID, c.keys.theirKeyID)
 
 	return nil
 }
